@@ -49,6 +49,28 @@ def run(ctx):
     used_models = set()
     used_chars = set()
 
+    import tempfile
+    tmpdir = tempfile.mkdtemp(prefix="verif_c01_")
+    counter = [0]
+
+    def file_based(text, case, impl):
+        """the same text given as a file (with and without a final line end) must give the same tables"""
+        counter[0] += 1
+        for strip in (False, True):
+            path = os.path.join(tmpdir, f"f{counter[0]}_{int(strip)}.dec")
+            with open(path, "w", encoding="utf-8", newline="") as f:
+                f.write(text.rstrip("\r\n\t ") if strip else text)
+            try:
+                q = DecFileParser(path)
+                q.parse(include_ccdecays=case["include_ccdecays"])
+                got = impl_tables(q)
+            except Exception as e:
+                got = "error: " + err_class(e)
+            if got != impl:
+                res.violation("the text read from a file gives different tables than the same text given as a string",
+                              dict(case, final_newline=not strip), impl=got if isinstance(got, str) else got[:3], model=impl[:3], clause="file-based construction")
+                return
+
     def one(text, label, doc=None, cc=True):
         case = {"kind": "tables", "label": label, "text": text if len(text) < 4000 else text[:300] + "...", "include_ccdecays": cc}
         try:
@@ -93,6 +115,8 @@ def run(ctx):
                 res.violation("public queries do not show the stored tables", case, clause="every decay line once")
             if [list(x[1] for x in ls) for m, ls in pub] != [[list(fs) for fs in p.list_decay_modes(m)] for m, _ in pub]:
                 res.violation("list_decay_modes differs from the decay mode details", case, clause="daughters verbatim and in order")
+            if doc is not None and res.evaluations % 4 == 0:
+                file_based(text, case, impl)
 
         def on(ans, case=case, impl=impl, err=err):
             if ans is None:
@@ -145,6 +169,8 @@ def run(ctx):
             continue
         one(text, "file:" + os.path.basename(f))
     batch.run()
+    import shutil
+    shutil.rmtree(tmpdir, ignore_errors=True)
     res.distribution["published_models_used"] = len(used_models & set(models))
     res.distribution["label_characters_used"] = len(used_chars)
     return res.done()
